@@ -151,6 +151,18 @@ def gen(rng, idx, tier):
     else:
         fea, summary = G.gen_fea(rng, facts)
         writers = G.gen_writers(rng)
+    dup = (writers.get("kind") == "explicit" and len(writers["list"]) >= 2
+           and writers["list"][1] == "..." and isinstance(writers["list"][0], dict)
+           and writers["list"][0].get("class") in ("KernFeatureWriter", "MarkFeatureWriter",
+                                                   "CursFeatureWriter"))
+    if dup:
+        # two writers for one feature AND two markers in the user's block: each writer fills
+        # one marker - twice the rules by configuration, not the case under study
+        import re
+        for m in re.finditer(r"feature (\w+) \{(.*?)\} \1;", fea, re.S):
+            if len(re.findall(r"^\s*# Automatic Code", m.group(2), re.M)) >= 2:
+                writers = {"kind": "default"}
+                break
     spec["features"] = fea
     return {"stratum": stratum, "ufo": spec, "writers": writers,
             "lib": rng.choice(["defcon", "ufoLib2"]), "summary": summary}
@@ -298,6 +310,9 @@ def _run(case):
                                          if k.startswith("lookup:")})}}])
     log = [dict(r) for r in _LOG]
     bump("cases_judged")
+    if (cfg["kind"] == "explicit" and len(cfg["list"]) >= 2 and cfg["list"][1] == "..."
+            and isinstance(cfg["list"][0], dict) and cfg["list"][0].get("class") != "HarnessGsubWriter"):
+        bump("writers_one_class_twice_in_the_effective_list")
     bump("writers_" + ("explicit_ellipsis" if cfg["kind"] == "explicit" and "..." in cfg["list"]
                        else "explicit_plain" if cfg["kind"] == "explicit" else cfg["kind"]))
     violations = []
